@@ -16,14 +16,14 @@ BodyC == {"minus", "plus", "zero"}
 SecTemplateLen(kd) ==
   CASE kd = "mod" -> 3 [] kd = "add" -> 4 [] kd = "addempty" -> 2 [] kd = "del" -> 4 [] kd = "rename" -> 3
     [] kd = "renmod" -> 6 [] kd = "copy" -> 3 [] kd = "modeonly" -> 2 [] kd = "modemod" -> 5 [] kd = "bin" -> 2
-    [] kd = "binadd" -> 3 [] OTHER -> 0
-SecHasHunks(kd) == kd \in {"mod", "add", "del", "renmod", "modemod"}
+    [] kd = "binadd" -> 3 [] kd = "cc" -> 3 [] OTHER -> 0
+SecHasHunks(kd) == kd \in {"mod", "add", "del", "renmod", "modemod", "cc"}
 
 \* What the one file header of a section must say: <<old, new, label, mode, binary>>
 \* (0 = /dev/null side; mode 2 = "mode changed" must be reported)
 WantHeader(l) ==
   LET f == l.f g == l.g kd == l.kd IN
-  CASE kd \in {"mod", "bare"}       -> <<f, f, "modified", 0, FALSE>>
+  CASE kd \in {"mod", "bare", "cc"} -> <<f, f, "modified", 0, FALSE>>
     [] kd \in {"add", "addempty"}  -> <<0, f, "added", 0, FALSE>>
     [] kd = "del"                  -> <<f, 0, "removed", 0, FALSE>>
     [] kd \in {"rename", "renmod"} -> <<f, g, "renamed", 0, FALSE>>
@@ -56,10 +56,33 @@ RECURSIVE InHeader(_, _)
 InHeader(h, k) == IF k = 0 \/ h[k].c \in {"commit", "hh"} THEN FALSE
                   ELSE IF h[k].c = "diff" THEN TRUE ELSE InHeader(h, k - 1)
 
+\* ---- merge-conflict regions (combined diffs): the region that ends at line k ----
+ConfMarks == {"m_ours", "m_anc", "m_theirs", "m_end"}
+RECURSIVE RegionStart(_, _)
+RegionStart(h, k) == IF k = 0 \/ h[k].c = "m_ours" THEN k ELSE RegionStart(h, k - 1)
+\* phase of line j inside a region: the last marker at or before it
+RECURSIVE PhaseOf(_, _)
+PhaseOf(h, j) == IF h[j].c \in ConfMarks THEN h[j].c ELSE PhaseOf(h, j - 1)
+Part(h, a, k, mark) == SelectSeq([j \in 1..(k - a - 1) |-> a + j],
+                                 LAMBDA j : h[j].c \notin ConfMarks /\ PhaseOf(h, j) = mark)
+\* a conflict region is shown as two comparisons against the common ancestor
+ConflictRows(h, k) ==
+  LET a == RegionStart(h, k)
+      ours == Part(h, a, k, "m_ours") anc == Part(h, a, k, "m_anc") theirs == Part(h, a, k, "m_theirs")
+      rows(t, ks) == [i \in 1..Len(ks) |-> Row(t, ks[i], <<>>)]
+  IN << Row("bar", k, <<>>), Row("mergeHdr", k, <<>>) >> \o rows("minus", anc) \o rows("plus", ours)
+     \o << Row("mergeHdr", k, <<>>) >> \o rows("minus", anc) \o rows("plus", theirs) \o << Row("bar", k, <<>>) >>
+RECURSIVE InConflict(_, _)
+\* is line k inside a conflict region that has not been closed yet?
+InConflict(h, k) == IF k = 0 \/ h[k].c \in {"diff", "commit", "hh", "m_end"} THEN FALSE
+                    ELSE IF h[k].c = "m_ours" THEN TRUE ELSE InConflict(h, k - 1)
+
 \* Rows that line k of history h contributes, in place.
 RowsOf(h, k) ==
   LET c == h[k].c IN
-  CASE c = "commit" -> << Row("commit", k, <<>>) >>
+  CASE c = "m_end" -> ConflictRows(h, k)
+    [] c \in {"m_ours", "m_anc", "m_theirs", "cin"} -> << >>
+    [] c = "commit" -> << Row("commit", k, <<>>) >>
     [] c = "diff"   -> << Row("fileHdr", k, IF SecComplete(h, k) THEN WantHeader(h[k]) ELSE <<>>) >>
     [] c = "hh"     -> IF HunkShown(h, k) THEN << Row("hunkHdr", k, <<>>) >> ELSE << >>
     [] c \in BodyC  -> << Row(c, k, <<>>) >>
@@ -86,7 +109,7 @@ Represented(seen, k) == \E i \in DOMAIN seen : seen[i].k = k
 LagOK(h, seen, B) ==
   \* the statement speaks about prefixes that end inside a hunk (or in plain text); a prefix that
   \* ends in a header line is not constrained beyond PrefixStable
-  (Len(h) > 0 /\ h[Len(h)].c \in BodyC \cup {"nonl", "other", "blank", "commit"}) =>
+  (Len(h) > 0 /\ h[Len(h)].c \in BodyC \cup {"nonl", "other", "blank", "commit"} /\ ~InConflict(h, Len(h))) =>
   LET pend == {k \in DOMAIN h : h[k].c \in BodyC \cup {"nonl", "other", "blank", "commit"}
                                 /\ Required(RowsOf(h, k)) # <<>> /\ ~Represented(seen, k)} IN
   /\ \A k \in pend : h[k].c \in {"minus", "plus"}
